@@ -165,7 +165,30 @@ def e2e_case(seed):
         env = {p: '$' + p for p in f.get('sig', [])} if not f.get('identity') else {}
         steps.append({'t': 'call', 'bag': bag, 'name': n, 'env': env, 'stores': [size for _, size in ex.stores],
                       'impure': sorted(b.world.impure), 'const_fns': [[k, val_to_json(v, b.world)] for k, v in b.world.consts.items()]})
-    return {'stack': st, 'obs': obs, 'steps': steps, 'names': names, 'world': b.world}
+    # multi-field requests: `_compile((n1, ..., nk))` of the real code against the model's product node over the same container
+    tuples = []
+    if 'dir_err' not in obs:
+        ok_names = [n for n in names if 'err' not in obs['fields'][n]]
+        for _ in range(2):
+            if not ok_names:
+                break
+            req = [rng.choice(ok_names) for _ in range(rng.choice([1, 2, 2, 3]))]
+            rec = {'names': req}
+            try:
+                fn = layer._compile(tuple(req))
+                sig = list(fn.__signature__.parameters)
+                rec['sig'] = sig
+                try:
+                    rec['value'] = val_to_json(fn(*['$' + p_ for p_ in sig]), b.world)
+                except Exception as e:
+                    rec['value_err'] = exc_name(e)
+            except Exception as e:
+                rec['err'] = exc_name(e)
+            tuples.append(rec)
+            env = {p_: '$' + p_ for p_ in rec.get('sig', [])}
+            steps.append({'t': 'call_tuple', 'bag': bag, 'names': req, 'env': env, 'stores': [size for _, size in ex.stores],
+                          'impure': sorted(b.world.impure), 'const_fns': [[k, val_to_json(v, b.world)] for k, v in b.world.consts.items()]})
+    return {'stack': st, 'obs': obs, 'steps': steps, 'names': names, 'world': b.world, 'tuples': tuples}
 
 
 def e2e_compare(case, outs):
@@ -213,6 +236,23 @@ def e2e_compare(case, outs):
             pred = a['predicted']
             if 'ok' not in pred or canon(pred['ok']) != canon(f['value']):
                 bad.append({'field': name, 'what': 'theorem node_pipeline_value contradicted by the real value', 'real': f['value'], 'predicted': pred})
+    for rec, a in zip(case.get('tuples', []), outs[len(case['names']):]):
+        case['tuple_requests'] = case.get('tuple_requests', 0) + 1
+        if 'err' in rec:
+            if a.get('err') != rec['err']:
+                bad.append({'tuple': rec['names'], 'real': rec['err'], 'model': a})
+            continue
+        if 'r' not in a:
+            bad.append({'tuple': rec['names'], 'real': rec.get('sig'), 'model': a})
+        elif sorted(a.get('sig', [])) != sorted(rec['sig']):
+            bad.append({'tuple': rec['names'], 'what': 'signature', 'real': rec['sig'], 'model': a.get('sig')})
+        elif 'value' in rec:
+            if 'ok' not in a['r'] or canon(a['r']['ok']) != canon(rec['value']):
+                bad.append({'tuple': rec['names'], 'what': 'value (a tuple in request order)', 'real': rec['value'], 'model': a['r']})
+            else:
+                n_ok += 1
+        elif a['r'].get('err') != rec.get('value_err'):
+            bad.append({'tuple': rec['names'], 'what': 'exception', 'real': rec.get('value_err'), 'model': a['r']})
     return bad, n_ok, inst
 
 
@@ -232,6 +272,7 @@ def run_e2e_shard(args):
         stats['vm_theorem_instances'] += inst
         stats['pipeline_value_instances'] += c.get('pipeline_instances', 0)
         stats['compile_ok_instances'] += c.get('compile_ok_instances', 0)
+        stats['tuple_requests'] = stats.get('tuple_requests', 0) + c.get('tuple_requests', 0)
         if d:
             bad.append({'stack': c['stack'], 'diff': json.loads(json.dumps(d[:3], default=str))})
     return stats, bad
